@@ -529,6 +529,7 @@ pub fn check(hdr: &str, lines: &[String], trace: &[(String, Vec<String>)], mon: 
         }
 
         let mut echo_op = false;
+        let mut fresh_read: Option<Vec<u8>> = None;
         // ---- a new READ request starts a series expectation (snapshot at request time)
         let to_broadcast = ws[0] == "rx" && matches!(ws[2], "65533" | "65534" | "65535");
         if to_broadcast && (ws[1] == "1" || anymaster) {
@@ -548,6 +549,7 @@ pub fn check(hdr: &str, lines: &[String], trace: &[(String, Vec<String>)], mon: 
                 // a READ repeated during the confirm wait is echoed from memory: not a new series
                 echo_op = true;
             } else if f.len() >= 2 && f[1] == 1 && f[0] & 0xF0 == 0xC0 {
+                fresh_read = Some(f.clone());
                 // the expectation (snapshot) is taken when the first fragment is transmitted: at once for a
                 // READ processed from idle, when the unsolicited series ends for a deferred READ
                 series = expected_static(&f[2..], &pts, czero).map(|want| Series { req: f[2..].to_vec(), want, got: Vec::new(), first_seq: f[0] & 0x0F, next_seq: f[0] & 0x0F, frags: 0, valid: true, to: ws[1].to_string() });
@@ -618,6 +620,53 @@ pub fn check(hdr: &str, lines: &[String], trace: &[(String, Vec<String>)], mon: 
                     None => {
                         let stale = ledger.iter().any(|e| e.ty == ty && e.idx == idx && (e.released || e.discarded) && ref_event_obj(ty, var, &e.val, cto).as_deref() == Some(&raw[..]));
                         fail(mon, hdr, "nothing_invented", "", &format!("op {k}: event object g{}v{var} idx {idx} {} is not a recorded unreleased event (or out of order){}", ty.event_group(), hex(&raw), if stale { " [matches a released/discarded one]" } else { "" }));
+                    }
+                }
+            }
+            // C03 ("keeps being offered in later polls"): a complete (FIR, FIN) answer to a READ whose headers are class
+            // polls (g60v2..v4: all objects, or limited by a count) carries, for each class asked once, the oldest
+            // min(limit, available) events of that class: a count limit applies to the events that MATCH the header
+            if !uns && !resend && b[0] & 0xC0 == 0xC0 {
+                if let Some(req) = fresh_read.take() {
+                    if (req[0] & 0x0F) == (b[0] & 0x0F) {
+                        // parse headers: 3c vv 06 | 3c vv 07 nn | 3c vv 08 nn nn ; anything else: no judgement
+                        let mut want: [Option<usize>; 3] = [None; 3];
+                        let mut asked = [0u8; 3];
+                        let mut ok = true;
+                        let mut o = &req[2..];
+                        while !o.is_empty() && ok {
+                            if o.len() >= 3 && o[0] == 0x3c && (2..=4).contains(&o[1]) {
+                                let c = (o[1] - 2) as usize;
+                                let (lim, used) = match o[2] {
+                                    0x06 => (usize::MAX, 3),
+                                    0x07 if o.len() >= 4 => (o[3] as usize, 4),
+                                    0x08 if o.len() >= 5 => (o[3] as usize | (o[4] as usize) << 8, 5),
+                                    _ => { ok = false; (0, 0) }
+                                };
+                                if ok {
+                                    asked[c] += 1;
+                                    want[c] = Some(lim);
+                                    o = &o[used..];
+                                }
+                            } else if o.len() >= 3 && o[0] == 0x3c && o[1] == 1 && o[2] == 0x06 {
+                                o = &o[3..]; // class 0: static data, after the events
+                            } else {
+                                ok = false;
+                            }
+                        }
+                        if ok {
+                            for c in 0..3 {
+                                if asked[c] != 1 {
+                                    continue;
+                                }
+                                let avail: Vec<u64> = ledger.iter().filter(|e| !e.released && !e.discarded && e.class as usize == c + 1 && !outstanding_unsol.contains(&e.id)).map(|e| e.id).collect();
+                                let need = want[c].unwrap().min(avail.len());
+                                let got = carried.iter().filter(|id| ledger.iter().any(|e| e.id == **id && e.class as usize == c + 1)).count();
+                                if got < need {
+                                    fail(mon, hdr, "class_poll_returns_oldest_matching", "", &format!("op {k}: READ {} answered completely with {got} class {} event(s), {need} expected ({} available)", hex(&req), c + 1, avail.len()));
+                                }
+                            }
+                        }
                     }
                 }
             }
